@@ -159,7 +159,15 @@ def check_cover(ctx, fi, rule, key, loop, is_action, allow=None,
                             is not None
                     # ... and the other edge must lead to the action
                     # (otherwise this test is not what decides)
-                    if bypass and allow(n.ast.test, lab):
+                    # `if not c:` on edge e is `if c:` on the other edge
+                    tst, eff = n.ast.test, lab
+                    while isinstance(tst, ast.UnaryOp) and isinstance(
+                            tst.op, ast.Not):
+                        tst = tst.operand
+                        eff = 'false' if eff == 'true' else 'true'
+                    if bypass and (allow(n.ast.test, lab)
+                                   or (tst is not n.ast.test
+                                       and allow(tst, eff))):
                         others = [t2 for (t2, l2) in cfg.succ[n.id]
                                   if l2 in ('true', 'false') and l2 != lab]
                         if all(t2 in acts or (t2 != hdr.id and cfg.path(
